@@ -172,9 +172,12 @@ def replay(path):
 
 MANIFEST = dict(
     category="proof",
-    technique="Lean 4 theorem genRe_sound (structural induction on the regex tree, all draw outcomes) + (requests, string) correspondence",
-    text="Theorems in Props/C09.lean: whatever the draws, a string returned by the model generator is in the language of the "
-         "pattern tree (Matches), unsupported opcodes on the generation path raise ValueError, and open-ended repeats draw their "
-         "count from [min, max(cap, min)]; tie: the model's request sequence and string are compared with the real RegexGenerator "
-         "under scripted draws, on trees produced by CPython's own parser; search: re.fullmatch on the real code.",
+    technique="Lean 4 theorem genSeq_sound (structural induction on the regex tree, all draw outcomes) + (requests, string) "
+              "correspondence",
+    text="Props/C09.lean: whatever the draws, a string returned by the model generator is in the language of the pattern "
+         "tree (genSeq_sound; Matches / MatchesSeq / MatchesAlt), unsupported opcodes on the generation path raise "
+         "ValueError and nothing else is raised (genRe_unsup, genSeq_error_kind), open-ended repeats draw their count from "
+         "[min, max(cap, min)] (rep_request). Tie: the model's request sequence and string are compared with the real "
+         "RegexGenerator under scripted draws, on trees produced by CPython's own parser; search: re.fullmatch on the real "
+         "code.",
     note="Trusted: Lean kernel + standard axioms, sre_parse -> Re conversion, re.fullmatch semantics, hand model (sampling tie).")
